@@ -25,6 +25,7 @@ type C07Cfg struct {
 	RenameW  int // node rename by ID, aimed at nodes with services / sessions
 	PeerW    int // peer-imported registration / deregistration
 	DestW    int // service-defaults with / without destination, and deletion
+	MultiGwW int // one service linked by an ingress AND a terminating gateway whose instance advertises its virtual IP
 }
 
 // C07SanitizePeerRegistration rewrites a peer-scoped registration into the shape the peering stream produces
@@ -112,6 +113,7 @@ func (w *World) C07DrawOp(t *rapid.T, cfg *C07Cfg) *Op {
 		{cfg.RenameW, func() *Op { return w.c07DrawRename(t) }},
 		{cfg.PeerW, func() *Op { return w.c07DrawPeer(t) }},
 		{cfg.DestW, func() *Op { return w.c07DrawDefaults(t) }},
+		{cfg.MultiGwW, func() *Op { return w.c07DrawMultiGateway(t) }},
 	}
 	total := 0
 	for _, f := range fams {
@@ -403,4 +405,154 @@ func (w *World) c07DrawDefaults(t *rapid.T) *Op {
 		return w.DrawCoord(t)
 	}
 	return NewConfig(ConfigSet, w.NextIdx(t), structs.ConfigEntryUpsert, sd)
+}
+
+// c07DrawMultiGateway builds, one op per call, the situation "service S is linked by the ingress gateway AND by
+// the terminating gateway, a terminating-gateway instance registered after the entry advertises
+// consul-virtual:S, S has a catalog instance (and possibly a proxy / a service-defaults entry)", and once it is
+// reached removes what else holds S's virtual IP: the last instance(s) of S, S's service-defaults entry, or
+// re-registers the gateway instance. Each call looks at the store and supplies the first missing piece.
+func (w *World) c07DrawMultiGateway(t *rapid.T) *Op {
+	s := w.Store
+	flag := func(k string) bool {
+		_, e, _ := s.SystemMetadataGet(nil, k)
+		return e != nil && e.Value != ""
+	}
+	if !flag(structs.SystemMetadataVirtualIPsEnabled) {
+		return NewSysMeta(w.NextIdx(t), structs.SystemMetadataVirtualIPsEnabled, "true")
+	}
+	if !flag(structs.SystemMetadataTermGatewayVirtualIPsEnabled) {
+		return NewSysMeta(w.NextIdx(t), structs.SystemMetadataTermGatewayVirtualIPsEnabled, "true")
+	}
+	// what is there
+	var tg *structs.TerminatingGatewayConfigEntry
+	var ig *structs.IngressGatewayConfigEntry
+	if _, e, _ := s.ConfigEntry(nil, structs.TerminatingGateway, "term-gw", nil); e != nil {
+		tg = e.(*structs.TerminatingGatewayConfigEntry)
+	}
+	if _, e, _ := s.ConfigEntry(nil, structs.IngressGateway, "ingress-gw", nil); e != nil {
+		ig = e.(*structs.IngressGatewayConfigEntry)
+	}
+	tgLists := map[string]bool{}
+	if tg != nil {
+		for _, l := range tg.Services {
+			tgLists[l.Name] = true
+		}
+	}
+	igLists := map[string]bool{}
+	if ig != nil {
+		for _, l := range ig.Listeners {
+			for _, sv := range l.Services {
+				igLists[sv.Name] = true
+			}
+		}
+	}
+	insts := w.c07LocalInstances()
+	count := map[string]int{}
+	var gws []c07Inst
+	for _, in := range insts {
+		count[in.svc.Service]++
+		if in.svc.Kind == structs.ServiceKindTerminatingGateway && in.svc.Service == "term-gw" {
+			gws = append(gws, in)
+		}
+	}
+	// the service the scenario is about: the one the terminating gateway already lists, else a drawn one
+	var listed []string
+	for _, n := range ServiceNames {
+		if tgLists[n] {
+			listed = append(listed, n)
+		}
+	}
+	svc := pick(t, "mgsvc", ServiceNames)
+	if len(listed) > 0 {
+		svc = pick(t, "mglisted", listed)
+	}
+	switch {
+	case !tgLists[svc]: // terminating gateway entry naming the service exactly (the tag is only made for exact names)
+		e := &structs.TerminatingGatewayConfigEntry{Kind: structs.TerminatingGateway, Name: "term-gw", Services: []structs.LinkedService{{Name: svc}}}
+		if chance(t, "tgwild", 25) {
+			e.Services = append([]structs.LinkedService{{Name: "*"}}, e.Services...)
+		}
+		if chance(t, "tgsecond", 25) {
+			for _, n := range ServiceNames {
+				if n != svc {
+					e.Services = append(e.Services, structs.LinkedService{Name: n})
+					break
+				}
+			}
+		}
+		return w.c07ConfigSet(t, e)
+	case !igLists[svc] && !igLists["*"]: // ingress gateway entry linking the same service, by name or by wildcard
+		l := structs.IngressListener{Port: 8000, Protocol: "tcp", Services: []structs.IngressService{{Name: svc}}}
+		if chance(t, "igwild", 30) {
+			l = structs.IngressListener{Port: 8000, Protocol: "http", Services: []structs.IngressService{{Name: "*"}}}
+		}
+		return w.c07ConfigSet(t, &structs.IngressGatewayConfigEntry{Kind: structs.IngressGateway, Name: "ingress-gw", Listeners: []structs.IngressListener{l}})
+	case len(gws) == 0: // the gateway instance, registered AFTER its entry so that the tags are populated
+		req := c07BaseReq(pick(t, "gwnode", Nodes), "")
+		req.Service = &structs.NodeService{Kind: structs.ServiceKindTerminatingGateway, Service: "term-gw", ID: "term-gw-" + pick(t, "gwinst", []string{"1", "1", "2"}),
+			Port: 8444, Weights: &structs.Weights{Passing: 1, Warning: 1}, EnterpriseMeta: defaultEM}
+		return NewRegister(w.NextIdx(t), req)
+	case count[svc] == 0 && chance(t, "mgreg", 75): // an instance (sometimes connect-native, sometimes with its sidecar first)
+		req := c07BaseReq(pick(t, "svcnode", Nodes), "")
+		switch rapid.IntRange(0, 5).Draw(t, "mgshape") {
+		case 0:
+			req.Service = c07Proxy(svc, "1", nil)
+		default:
+			req.Service = &structs.NodeService{Service: svc, ID: svc + "-" + pick(t, "inst", []string{"1", "1", "2"}), Port: 8080, Weights: &structs.Weights{Passing: 1, Warning: 1}, EnterpriseMeta: defaultEM}
+			if chance(t, "mgnative", 20) {
+				req.Service.Connect.Native = true
+			}
+		}
+		return NewRegister(w.NextIdx(t), req)
+	}
+	// everything is in place (or the service has no instance left): take away what else holds the virtual IP
+	_, sd, _ := s.ConfigEntry(nil, structs.ServiceDefaults, svc, nil)
+	var victims []c07Inst
+	for _, in := range insts {
+		if in.svc.Service == svc {
+			victims = append(victims, in)
+		}
+	}
+	switch k := rapid.IntRange(0, 9).Draw(t, "mgremove"); {
+	case k < 5 && len(victims) > 0:
+		v := pick(t, "mgvictim", victims)
+		if chance(t, "wholenode", 15) {
+			return NewDereg(DeregNode, w.NextIdx(t), v.node, "", "")
+		}
+		return NewDereg(DeregService, w.NextIdx(t), v.node, v.svc.ID, "")
+	case k < 7 && sd != nil:
+		return NewConfig(ConfigDelete, w.NextIdx(t), structs.ConfigEntryDelete, &structs.ServiceConfigEntry{Kind: structs.ServiceDefaults, Name: svc})
+	case k < 8 && sd == nil:
+		return w.c07ConfigSet(t, &structs.ServiceConfigEntry{Kind: structs.ServiceDefaults, Name: svc, Protocol: "tcp"})
+	case k < 9 && len(gws) > 0: // re-registration of the gateway instance (tags are rebuilt from the entry)
+		g := pick(t, "mggw", gws)
+		req := c07BaseReq(g.node, "")
+		req.Service = &structs.NodeService{Kind: structs.ServiceKindTerminatingGateway, Service: "term-gw", ID: g.svc.ID, Port: pick(t, "gwport", []int{8444, 8446}),
+			Weights: &structs.Weights{Passing: 1, Warning: 1}, EnterpriseMeta: defaultEM}
+		return NewRegister(w.NextIdx(t), req)
+	case len(victims) > 0:
+		v := pick(t, "mgvictim2", victims)
+		return NewDereg(DeregService, w.NextIdx(t), v.node, v.svc.ID, "")
+	}
+	// a connect proxy of another service: the next taker of a freed address
+	req := c07BaseReq(pick(t, "node", Nodes), "")
+	other := ServiceNames[0]
+	for _, n := range ServiceNames {
+		if n != svc {
+			other = n
+		}
+	}
+	req.Service = c07Proxy(other, "1", nil)
+	return NewRegister(w.NextIdx(t), req)
+}
+
+func (w *World) c07ConfigSet(t *rapid.T, e structs.ConfigEntry) *Op {
+	if err := e.Normalize(); err != nil {
+		t.Skip("config entry does not normalise: " + err.Error())
+	}
+	if err := e.Validate(); err != nil {
+		return w.DrawCoord(t) // refused by the endpoint before raft apply: not a command
+	}
+	return NewConfig(ConfigSet, w.NextIdx(t), structs.ConfigEntryUpsert, e)
 }
